@@ -188,13 +188,13 @@ def run_case(cls, case_idx, timeout_ms=None):
         res["outcomes"][p.outcome] = res["outcomes"].get(p.outcome, 0) + 1
         if p.outcome == "unsupported":
             res["unsupported"].append(p.exc)
-        elif p.outcome != "segment":
+        elif p.outcome not in ("segment", "infeasible"):
             reached += 1
         res["trusted"] |= p.cx.trusted
         for ev in p.cx.events:
             res["events"].append([str(x) for x in ev])
         # vacuity: hypotheses of at least one reaching path are satisfiable
-        if not covered and p.outcome not in ("unsupported", "segment"):
+        if not covered and p.outcome not in ("unsupported", "segment", "infeasible"):
             # `ensures false` must not be provable: the hypotheses of a path reaching the post-condition
             # are not contradictory (sat, or - with quantified invariants - at least not refutable)
             r = p.cx.check_sat(timeout_ms=1500)
